@@ -52,6 +52,11 @@ _SYN_MIXTURES = {
     "S3": ("SA", "SD", dict(g12=0.0, g21=0.0, alpha12=0.3), None),
     "S4": ("SC", "SD", dict(g12=1500.0, g21=2600.0, alpha12=0.45), (150.0, -60.0, -1200.0, 2100.0, 12)),
 }
+# S5: the same constants as S4 but its components are NAMED like built-in ones: anything keyed by component / mixture
+# name instead of by the object's constants collides with H2O_EtOH inside one worker process
+_SYN_COMPONENTS["H2O"] = dict(_SYN_COMPONENTS["SC"])
+_SYN_COMPONENTS["EtOH"] = dict(_SYN_COMPONENTS["SD"])
+_SYN_MIXTURES["S5"] = ("H2O", "EtOH", dict(g12=1500.0, g21=2600.0, alpha12=0.45), (150.0, -60.0, -1200.0, 2100.0, 12))
 SYNTHETIC_MIXTURES = list(_SYN_MIXTURES)
 ALL_MIXTURES = BUILTIN_MIXTURES + SYNTHETIC_MIXTURES
 
@@ -77,7 +82,7 @@ def get_mixture(name):
         return getattr(Mixtures, name)
     first, second, nrtl, uq = _SYN_MIXTURES[name]
     return Mixture(
-        name=name,
+        name="H2O_EtOH" if name == "S5" else name,
         first_component=syn_component(first),
         second_component=syn_component(second),
         nrtl_params=None if nrtl is None else NRTLParameters(**nrtl),
@@ -180,6 +185,7 @@ PROGRAMMES = {
     "log": ("logarithmic", [140.0, 10.8, 0.12]),  # T = c0*ln(c1 + c2*t)
     "log3": ("logarithmic", [150.0, 8.9, 0.21, -0.003]),
     "poly_cross0": ("polynomial", [300.0, -400.0]),  # crosses 0 K within the first step(s)
+    "log_t0": ("logarithmic", [40.0, 0.0, 5962.0]),  # -inf at t = 0, about 320 K at t = 0.5 h: only the STATED initial temperature is valid at step 0
 }
 
 
@@ -233,6 +239,7 @@ def make_conditions(mixture, area, t0, amount, x0, basis="weight", mode="vac", p
 CURVE_LAWS = {
     "lawA": ((2.0e1, 1.3, -0.4, 2300.0, 150.0), (3.0e-2, -0.9, 0.3, 1900.0, -120.0)),
     "lawB": ((6.0e2, -0.7, 0.0, 3100.0, 0.0), (4.0e0, 1.1, 0.0, 3600.0, 0.0)),
+    "lawC": ((2.0e1, 1.3, -0.4, 2300.0, 150.0), (3.0e-7, -0.9, 0.3, 1900.0, -120.0)),  # very selective: second component ~1e-9
 }
 CURVE_XS = [0.05, 0.15, 0.3, 0.45, 0.6, 0.75, 0.9]
 
